@@ -748,6 +748,15 @@ pub fn arb_cv(depth: u32, kw: bool) -> BoxedStrategy<CV> {
             Just("2.5E-3".to_string()),
             Just(".5".to_string()),
             Just("3.".to_string()),
+            // every combination of the optional parts: sign, integer digits, dot, fraction, exponent
+            Just("1.e5".to_string()),
+            Just("12.e-3".to_string()),
+            Just("-7.E-2".to_string()),
+            Just(".5e3".to_string()),
+            Just("+2.5".to_string()),
+            Just("6.02e23".to_string()),
+            Just("1e-7".to_string()),
+            (0u32..1000, 0u32..1000, -30i32..30).prop_map(|(a, b, e)| format!("{}.{}e{}", a, b, e)),
             (0u32..100000, 0u32..1000).prop_map(|(a, b)| format!("{}.{}", a, b)),
         ]
         .prop_map(CV::Double),
